@@ -5,6 +5,7 @@ import os
 import random
 
 import common
+import tlc
 
 PROP = "C16"
 DBS = ["da", "db", "dc", "dd"]
@@ -92,6 +93,17 @@ def run(tier, seed):
     res = common.Result(PROP, tier, seed, "fault_enumeration")
     wd = common.workdir(PROP)
     devs, known = common.load_findings(PROP)
+    # design level: the key-identifier / flag-file protocol with a kill between any two file-system steps
+    cfg = "NunIds.cfg" if tier == "quick" else "NunIds_thorough.cfg"
+    rc, mout, secs = tlc.run_tlc("NunIds.tla", cfg, workers=4, timeout=1800, heap="6g")
+    if "No error has been found" not in mout:
+        raise common.ToolError("NunIds (model of the repaired code) does not satisfy Decodes:\n" + mout[-3000:])
+    gen, distinct = tlc.stats(mout)
+    # the same model with the repair of invalidate_oplog undone must show the recorded (fixed) finding:
+    # a check of the model's sensitivity, not of the code
+    rc2, mout2, _ = tlc.run_tlc("NunIds.tla", "NunIds_unfixed.cfg", workers=2, timeout=600, heap="3g")
+    if "Invariant Decodes is violated" not in mout2:
+        raise common.ToolError("NunIds with Fixed = FALSE no longer reproduces finding F34:\n" + mout2[-2000:])
     cases = cases_for(tier, seed)
     raws = common.run_cases_parallel("ids", cases, wd, procs=14, timeout=3000)
     norm_path = os.path.join(wd, "norm.ndjson")
@@ -114,7 +126,12 @@ def run(tier, seed):
                                {c["id"]: c for c in cases})
     res.coverage.update({
         "evaluations": checks, "distinct_nontrivial": checks,
-        "rule": "seeded histories of {create-db, first write of a new key, write of a shared key name, remove, "
+        "model": "NunIds.tla/%s: %d distinct states, invariant Decodes (every history of first writes of new keys, "
+                 "rewrites, key-map snapshots in two steps, kills between any two file-system steps and start-ups)"
+                 % (cfg, distinct),
+        "model_states": distinct, "model_transitions": gen,
+        "rule": "every history of {first write of a new key, snapshot, kill + restart, clean shutdown + restart} up to "
+                "length 4 (6 thorough) on a snapshotted database; seeded histories of {create-db, first write of a new key, write of a shared key name, remove, "
                 "snapshot of a random subset + declutter tick, clean shutdown, restart} over 1-4 databases on a "
                 "node with its real replication loop (key ids, oplog, oplog-valid flag); the oplog is decoded "
                 "through a freshly started node after every restart, at the end, and -- for a third of the "
